@@ -240,7 +240,7 @@ func (en *Env) eval(ex Expr) TV {
 		sub.bound = append(append([]*Term{}, en.bound...), bound...)
 		body := sub.boolOf(sub.eval(v.Body))
 		if v.Forall {
-			return TV{V: VScalar{Forall(bound, body)}, T: types.Typ[types.Bool]}
+			return TV{V: VScalar{flattenForall(bound, body)}, T: types.Typ[types.Bool]}
 		}
 		return TV{V: VScalar{Exists(bound, body)}, T: types.Typ[types.Bool]}
 	}
@@ -311,6 +311,16 @@ func (en *Env) toInt(tv TV) *Term {
 }
 
 func (e *Engine) ghostType(name string) types.Type {
+	// ghost field names are global: two packages declaring one name must agree on its type
+	seen := ""
+	for _, ps := range e.specs {
+		if ts, ok := ps.Ghosts[name]; ok {
+			if seen != "" && seen != ts {
+				panic(evalErr("ghost field " + name + " is declared with two types: " + seen + " and " + ts))
+			}
+			seen = ts
+		}
+	}
 	for _, ps := range e.specs {
 		if ts, ok := ps.Ghosts[name]; ok {
 			switch ts {
@@ -346,6 +356,12 @@ func (en *Env) ghostModel(b TV, name string) (*Clause, types.Type, *Term) {
 	case VRef:
 		dt = b.T
 		ref = h.T
+	case VStruct:
+		// a value receiver: its identity is the (unknown) box it was called through
+		if _, ok := types.Unalias(b.T).(*types.Named); ok {
+			dt = b.T
+			ref = Var("$valuebox", e.ar.I())
+		}
 	}
 	if dt == nil {
 		return nil, nil, nil
@@ -419,6 +435,9 @@ func (en *Env) selector(b TV, sel string) TV {
 			sub.vars = map[string]TV{}
 			if _, isPtr := dt.Underlying().(*types.Pointer); isPtr {
 				sub.vars["self"] = TV{V: VRef{ref}, T: dt}
+			} else {
+				// a value boxed in an interface: self is the identity of the box (ghost fields only)
+				sub.vars["self"] = TV{V: VRef{ref}, T: types.NewPointer(types.NewStruct(nil, nil))}
 			}
 			sub.ovars = sub.vars
 			sub.fr = nil
@@ -496,7 +515,12 @@ func (en *Env) fieldOfObject(elem types.Type, sty *types.Struct, ref *Term, sel 
 				// embedded / nested struct value: give back a pointer-like TV so further selection works
 				return TV{V: VRef{e.subRef(elem, i, ref)}, T: types.NewPointer(ft)}
 			}
-			return TV{V: en.st.loadFieldIn(en.heap, elem, i, ref), T: ft}
+			fv := en.st.loadFieldIn(en.heap, elem, i, ref)
+			if sv, ok := fv.(VSlice); ok && len(en.bound) == 0 {
+				// typing fact of every slice value stored in memory
+				en.st.assume(en.st.sliceWF(sv))
+			}
+			return TV{V: fv, T: ft}
 		}
 	}
 	for i := 0; i < sty.NumFields(); i++ {
@@ -864,6 +888,13 @@ func (en *Env) call(c ECall) TV {
 				return TV{V: VScalar{Eq(v.T, e.ar.IConst(0))}, T: boolT}
 			case VFunc:
 				return TV{V: VScalar{Eq(e.funcTerm(v), e.ar.IConst(0))}, T: boolT}
+			case VPtr:
+				if v.Reg != nil {
+					return TV{V: VScalar{Eq(v.Reg, e.ar.IConst(0))}, T: boolT}
+				}
+				if v.Cell != nil {
+					return TV{V: VScalar{False}, T: boolT}
+				}
 			}
 			en.fail("isnil of %T", a.V)
 		case "bytesat":
